@@ -319,11 +319,11 @@ func init() {
 		ID: "C17",
 		Harnesses: func(tier string) []HarnessSpec {
 			return []HarnessSpec{{Name: "two-nodes-contract-transport", Pkg: "remote", Func: "ZZ_C17", Preempt: 0,
-				Params:    pm("K", tierSel(tier, 2, 3), "TLS", 1, "ZZMAXALLOC", 1100000, "ZZDETSCHED", 1),
-				Witnesses: []string{"delivered", "dead-lettered", "burst", "peer-down", "peer-up", "reply", "unreachable-and-connected-in-one-history", "tls-configured"}, Deadline: 90 * time.Minute}}
+				Params:    pm("K", tierSel(tier, 2, 3), "TLS", 1, "EMPTY", 1, "ZZMAXALLOC", 1100000, "ZZDETSCHED", 1),
+				Witnesses: []string{"delivered", "dead-lettered", "burst", "peer-down", "peer-up", "reply", "unreachable-and-connected-in-one-history", "tls-configured", "sender-is-a-target-on-the-peer", "empty-message"}, Deadline: 90 * time.Minute}}
 		},
 		Bounds: func(tier string) string {
-			return fmt.Sprintf("two nodes A and B; quiescent histories of %d operations (send A->B to one of 2 targets with or without sender; burst of two sends; B's reader consumes what has arrived; B comes up / becomes reachable; B becomes unreachable and its connections break; B sends to an actor on A), B initially up or not started, both nodes configured with or without a TLS config (TLS itself is not modelled; tls.Dial keeps its real shape: a concrete *Conn that is nil on failure); then Start twice, Stop().Wait(), Stop again, Stop before Start; one schedule per history (deterministic scheduler), payload = remote.TestMessage with one data byte", tierSel(tier, 2, 3))
+			return fmt.Sprintf("two nodes A and B; quiescent histories of %d operations (send A->B: to one of 2 targets with or without sender, or relayed on behalf of an actor on B that is itself a target, or an empty message that serialises to zero bytes; burst of two sends; B's reader consumes what has arrived; B comes up / becomes reachable; B becomes unreachable and its connections break; B sends to an actor on A), B initially up or not started, both nodes configured with or without a TLS config (TLS itself is not modelled; tls.Dial keeps its real shape: a concrete *Conn that is nil on failure); then Start twice, Stop().Wait(), Stop again, Stop before Start; one schedule per history (deterministic scheduler), payload = remote.TestMessage with one data byte", tierSel(tier, 2, 3))
 		},
 		Outside: []string{
 			"REDUCED SCOPE - real TCP, TLS, the DRPC library (framing, its goroutines, flow control) and the OS are replaced by a contract transport: a dial succeeds exactly when the peer serves and is reachable, frames on an established connection arrive once and in order, a broken connection loses what was not yet read. That TCP+DRPC honour this contract is assumed, not checked",
